@@ -146,7 +146,8 @@ class World:
             r = await repo.init(password=password, settings=settings_)
             await repo.close()
             return r
-        res, _ = run(go())
+        res, out_ = run(go())
+        self.stdout_log = getattr(self, 'stdout_log', []) + [out_]
         u = User(name, password if res.key is not None else None, res.key, cache)
         if res.key is not None:
             u.key = repo.serialize(res.key)
@@ -164,7 +165,8 @@ class World:
             r = await repo.add_key(password=base.password if clone else password, settings=settings_, shared=shared or clone)
             await repo.close()
             return r
-        res, _ = run(go())
+        res, out_ = run(go())
+        self.stdout_log = getattr(self, 'stdout_log', []) + [out_]
         u = User(name, base.password if clone else password, repo.serialize(res.new_key), cache)
         self.users[name] = u
         return u
